@@ -3,6 +3,7 @@
  *   socket_real tcp   <seed> <4|6> <bytes> <storm 0|1> <mode 0..3>   mode bit0: sender non-blocking, bit1: receiver non-blocking
  *   socket_real udp   <seed> <4|6> <storm>
  *   socket_real timed <4|6> <T ms> <storm>
+ *   socket_real sigdata <4|6> <T ms>      data arrives at 0.8 T of a wait with timeout T while signals come every T/5
  *   socket_real flags <4|6>
  *   socket_real gone  <4|6>
  * prints one line: `ok …`, `skip <why>` or `FAIL <what>` (exit 0 / 0 / 1). */
@@ -285,6 +286,53 @@ static int t_timed (int fam, int T, int st) {
 	return 0;
 }
 
+/* ---------------------------------------------------------------- sigdata */
+struct late { int fam, port, delay_ms; };
+static void *late_sender (void *p) {
+	struct late *l = p;
+	sigset_t m; sigemptyset (&m); sigaddset (&m, SIGALRM); pthread_sigmask (SIG_BLOCK, &m, NULL);
+	struct timespec ts = { l->delay_ms / 1000, (l->delay_ms % 1000) * 1000000L };
+	while (nanosleep (&ts, &ts) != 0) ;
+	PSocket *u = p_socket_new (pfam (l->fam), P_SOCKET_TYPE_DATAGRAM, P_SOCKET_PROTOCOL_UDP, NULL);
+	PSocketAddress *a = p_socket_address_new (loop_addr (l->fam), (puint16) l->port);
+	if (u && a) p_socket_send_to (u, a, "forty-two bytes of late but timely data..!", 42, NULL);
+	if (a) p_socket_address_free (a);
+	if (u) p_socket_free (u);
+	return NULL;
+}
+
+/* a handled signal must not change the outcome: the datagram that arrives before the timeout is delivered */
+static int t_sigdata (int fam, int T) {
+	PError *err = NULL;
+	sigset_t m, old; sigemptyset (&m); sigaddset (&m, SIGALRM);
+	PSocket *r = p_socket_new (pfam (fam), P_SOCKET_TYPE_DATAGRAM, P_SOCKET_PROTOCOL_UDP, &err);
+	if (!r) { if (fam == 6) SKIP ("no IPv6 socket"); FAILF ("socket: %s", p_error_get_message (err)); }
+	PSocketAddress *a = p_socket_address_new (loop_addr (fam), 0);
+	if (!a || !p_socket_bind (r, a, TRUE, &err)) { if (fam == 6) SKIP ("::1 unavailable"); FAILF ("bind"); }
+	p_socket_address_free (a);
+	a = p_socket_get_local_address (r, &err);
+	struct late l = { fam, p_socket_address_get_port (a), T * 8 / 10 };
+	p_socket_address_free (a);
+	p_socket_set_timeout (r, T);
+	pthread_t th;
+	pthread_sigmask (SIG_BLOCK, &m, &old);            /* the helper inherits the blocked mask: signals reach this thread only */
+	pthread_create (&th, NULL, late_sender, &l);
+	pthread_sigmask (SIG_SETMASK, &old, NULL);
+	storm_us ((long) T * 1000 / 5);
+	char b[64];
+	double t0 = now_ms ();
+	pssize k = p_socket_receive_from (r, NULL, b, sizeof b, &err);
+	double el = now_ms () - t0;
+	storm (0);
+	pthread_join (th, NULL);
+	if (k != 42)
+		FAILF ("receive_from with timeout %d ms under signals every %d ms: returned %zd after %.0f ms (code %d native %d) although the datagram arrived at %d ms",
+		       T, T / 5, (ssize_t) k, el, err ? p_error_get_code (err) : 0, err ? p_error_get_native_code (err) : 0, l.delay_ms);
+	printf ("ok sigdata fam=%d T=%d returned 42 bytes after %.0f ms, %d signal(s)\n", fam, T, el, (int) n_alarm);
+	p_socket_free (r);
+	return 0;
+}
+
 /* ---------------------------------------------------------------- flags */
 static int t_flags (int fam) {
 	int port; PError *err = NULL;
@@ -347,6 +395,7 @@ int main (int argc, char **argv) {
 	if (!strcmp (argv[1], "tcp") && argc == 7) { rs = strtoull (argv[2], NULL, 10) * 2654435761ULL + 1; return t_tcp (strtoull (argv[2], NULL, 10), atoi (argv[3]), strtoull (argv[4], NULL, 10), atoi (argv[5]), atoi (argv[6])); }
 	if (!strcmp (argv[1], "udp") && argc == 5) { rs = strtoull (argv[2], NULL, 10) + 99; return t_udp (strtoull (argv[2], NULL, 10), atoi (argv[3]), atoi (argv[4])); }
 	if (!strcmp (argv[1], "timed") && argc == 5) return t_timed (atoi (argv[2]), atoi (argv[3]), atoi (argv[4]));
+	if (!strcmp (argv[1], "sigdata") && argc == 4) return t_sigdata (atoi (argv[2]), atoi (argv[3]));
 	if (!strcmp (argv[1], "flags") && argc == 3) return t_flags (atoi (argv[2]));
 	if (!strcmp (argv[1], "gone") && argc == 3) return t_gone (atoi (argv[2]));
 	return 2;
